@@ -97,7 +97,14 @@ pub fn predicate(id: &str, v: &Violation) -> bool {
         }
         // history-identified: the observer saw committed dispatch nodes of a waiting train replaced by a re-route
         // earlier in the same run; the abort that follows is the consequence
-        "C05-reroute-replaces-nodes-already-passed" => v.monitor == "panic" && v.layer == "dispatch" && sig_bool(v, "reroute_replaced_nodes_already_passed") == Some(true),
+        // ... or the re-route itself aborts where it looks, on the new branch, for the event the train's front /
+        // back node stands on ("This exits because some place on the new path must match": it does not)
+        "C05-reroute-replaces-nodes-already-passed" => {
+            v.monitor == "panic"
+                && v.layer == "dispatch"
+                && (sig_bool(v, "reroute_replaced_nodes_already_passed") == Some(true)
+                    || (sig_s(v, "location") == Some("src/meet_pass/train_disp/free_path.rs:733") && sig_s(v, "message").map(|m| m.starts_with("index out of bounds")).unwrap_or(false)))
+        }
         // bincode is not self-describing: a field that `skip_serializing_if` left out on output shifts every
         // later byte. Decidable from the yaml rendering: a known skippable key is absent.
         "C17-bincode-cannot-carry-skipped-fields" => {
